@@ -14,6 +14,10 @@ use std::sync::{Arc, Mutex};
 use std::time::{Duration, Instant};
 
 const VERIF_DIR: &str = "/verif";
+/// A run normally takes milliseconds; one that needs this long of real time is reported as a crash-class violation.
+const CHILD_WALL_CAP_S: u64 = 40;
+/// Wall-clock budget of one minimisation.
+const MINIMISE_BUDGET_S: u64 = 150;
 
 fn arg<'a>(args: &'a [String], name: &str) -> Option<&'a str> {
     args.iter().position(|a| a == name).and_then(|i| args.get(i + 1)).map(|s| s.as_str())
@@ -77,7 +81,7 @@ fn run_child(argv: &[String], wall_cap: Duration) -> ChildOut {
 }
 
 fn run_plan_file(check: &str, path: &str) -> ChildOut {
-    run_child(&["run".into(), "--check".into(), check.into(), "--plan".into(), path.into()], Duration::from_secs(120))
+    run_child(&["run".into(), "--check".into(), check.into(), "--plan".into(), path.into()], Duration::from_secs(CHILD_WALL_CAP_S))
 }
 
 fn run_plan(check: &str, plan: &Plan, tag: &str) -> ChildOut {
@@ -309,11 +313,15 @@ fn same_violation(r: &RunResult, rule: &str, key: &str) -> Option<Violation> {
 fn minimise(check: &str, plan: &Plan, rule: &str, key: &str, jobs: usize, budget: usize) -> (Plan, usize) {
     let mut best = plan.clone();
     let mut tried = 0usize;
+    let started = Instant::now();
     loop {
+        if started.elapsed().as_secs() > MINIMISE_BUDGET_S {
+            break;
+        }
         let cands = candidates(&best);
         let mut improved = false;
         let mut idx = 0;
-        while idx < cands.len() && tried < budget {
+        while idx < cands.len() && tried < budget && started.elapsed().as_secs() <= MINIMISE_BUDGET_S {
             let chunk: Vec<(usize, Plan)> = cands[idx..(idx + jobs).min(cands.len())].iter().cloned().enumerate().collect();
             idx += chunk.len();
             tried += chunk.len();
@@ -410,7 +418,7 @@ pub fn batch_main(args: &[String]) -> i32 {
                 break;
             }
             let seed = run_seed(verif_seed, &check, i);
-            let out = run_child(&["run".into(), "--check".into(), check.clone(), "--seed".into(), seed.to_string(), "--tier".into(), tier.clone()], Duration::from_secs(120));
+            let out = run_child(&["run".into(), "--check".into(), check.clone(), "--seed".into(), seed.to_string(), "--tier".into(), tier.clone()], Duration::from_secs(CHILD_WALL_CAP_S));
             let mut a = agg.lock().unwrap();
             a.runs += 1;
             match out {
@@ -650,7 +658,7 @@ pub fn determinism_main(args: &[String]) -> i32 {
                             Some(x) => x,
                             None => break,
                         };
-                        let r = run_child(&["run".into(), "--check".into(), def.id.into(), "--seed".into(), seed.to_string()], Duration::from_secs(120));
+                        let r = run_child(&["run".into(), "--check".into(), def.id.into(), "--seed".into(), seed.to_string()], Duration::from_secs(CHILD_WALL_CAP_S));
                         let entry = match r {
                             ChildOut::Ok(r) => (r.log_hash, r.sched_fp, r.claimed.iter().map(|v| format!("{}|{}", v.rule, v.key)).collect()),
                             ChildOut::Crash(m) => (0, 0, vec![m]),
